@@ -38,6 +38,12 @@ def text(b):
     return b.decode("utf-8", "ignore").encode("utf-8")
 
 
+# numbers at the edges of the integer types the parsers convert to (i16/i32/i64/u64/usize/i128), and unusual but accepted spellings
+EXTREME = ["0", "-0", "+5", "007", "255", "256", "32767", "32768", "65535", "65536", "2147483647", "2147483648", "4294967295", "4294967296",
+           "9223372036854775807", "9223372036854775808", "18446744073709551615", "18446744073709551616", "-9223372036854775808", "-9223372036854775809",
+           "170141183460469231731687303715884105727", "170141183460469231731687303715884105728", "1" + "0" * 40, " 3 ", "3\t", "٣", "1e3", "0x10"]
+
+
 class P(Prop):
     ID = "C20"
     THEOREMS = ["C20_json_array_total", "C20_typed_readers_total", "C20_json_object_fuel", "C20_json_array_fuel", "C20_request_total", "C20_response_total",
@@ -69,14 +75,22 @@ class P(Prop):
 
     def request(self, rnd):
         m = rnd.choice(["GET", "POST", "HEAD", "OPTIONS", "PUT", "get"]); u = rnd.choice(["/", "/a/b?x=1", "*", "/%20", "http://h/p"]); v = rnd.choice(["HTTP/1.1", "HTTP/1.0", "HTTP/2"])
-        hs = "".join("%s: %s\r\n" % (rnd.choice(["Host", "Content-Length", "X-A", "Range", "Content-Type", "Origin"]), rnd.choice(["h", "3", "abc", "bytes=0-1", "a/b", "-1", ""])) for _ in range(rnd.randint(0, 5)))
+        def hv(nm):
+            if nm == "Content-Length" and rnd.random() < 0.6: return rnd.choice(EXTREME)
+            if nm == "Range" and rnd.random() < 0.6: return "bytes=%s-%s" % (rnd.choice(EXTREME + [""]), rnd.choice(EXTREME + [""]))
+            return rnd.choice(["h", "3", "abc", "bytes=0-1", "a/b", "-1", ""])
+        hs = "".join("%s: %s\r\n" % (nm, hv(nm)) for nm in [rnd.choice(["Host", "Content-Length", "X-A", "Range", "Content-Type", "Origin"]) for _ in range(rnd.randint(0, 5))])
         return ("%s %s %s\r\n%s\r\n" % (m, u, v, hs)).encode() + rnd.choice([b"", b"abc", b"\xff\xfe", b"a\r\nb"])
 
     def response(self, rnd):
-        code, rsn = rnd.choice([(200, "OK"), (206, "Partial Content"), (404, "Not Found"), (500, "Internal Server Error"), (999, "X")])
+        code, rsn = rnd.choice([(200, "OK"), (206, "Partial Content"), (404, "Not Found"), (500, "Internal Server Error"), (999, "X"), (rnd.choice(EXTREME), "OK")])
         if rnd.random() < 0.5:
-            hs = "".join("%s: %s\r\n" % (rnd.choice(["Content-Type", "Content-Length", "Content-Range", "X-A"]), rnd.choice(["text/plain", "3", "bytes 0-2/10", "x", "bytes 5-1/3", ""])) for _ in range(rnd.randint(0, 4)))
-            return ("HTTP/1.1 %d %s\r\n%s\r\n" % (code, rsn, hs)).encode() + rnd.choice([b"", b"abc", b"\xff\xfe\r\n"])
+            def hv(nm):
+                if nm == "Content-Length" and rnd.random() < 0.6: return rnd.choice(EXTREME)
+                if nm == "Content-Range" and rnd.random() < 0.6: return "bytes %s-%s/%s" % (rnd.choice(EXTREME), rnd.choice(EXTREME), rnd.choice(EXTREME))
+                return rnd.choice(["text/plain", "3", "bytes 0-2/10", "x", "bytes 5-1/3", ""])
+            hs = "".join("%s: %s\r\n" % (nm, hv(nm)) for nm in [rnd.choice(["Content-Type", "Content-Length", "Content-Range", "X-A"]) for _ in range(rnd.randint(0, 4))])
+            return ("HTTP/1.1 %s %s\r\n%s\r\n" % (code, rsn, hs)).encode() + rnd.choice([b"", b"abc", b"\xff\xfe\r\n"])
         bd = rnd.choice(["String_separator", "B", "--x"])
         parts = b"\r\n".join(("--%s\r\nContent-Type: text/plain\r\nContent-Range: bytes %d-%d/%d\r\n\r\n" % (bd, rnd.randint(0, 3), rnd.randint(3, 9), rnd.randint(9, 20))).encode() + rnd.choice([b"x", b"ab\r\ncd", b"\xff"]) for _ in range(rnd.randint(0, 3)))
         return ("HTTP/1.1 206 Partial Content\r\nContent-Type: multipart/byteranges; boundary=%s\r\n\r\n" % bd).encode() + parts + ("\r\n--%s" % bd).encode()
@@ -91,8 +105,8 @@ class P(Prop):
     def small(self, rnd, kind):
         if kind == "hdr": return rnd.choice(["Host: example.com", "X-A:b", "A: b: c", "NoColon", ": v", "Name : value \r\n", "É: é"]).encode()
         if kind == "cd": return rnd.choice(['form-data; name="a"', 'form-data; name="a"; filename="b.txt"', "inline", "attachment; filename=x", 'form-data', 'form-data; x=1; y=2', "inline; =;=", "form-data;name=a;filename=b;extra=c"]).encode()
-        if kind == "rgspec": return rnd.choice(["0-1", "5-", "-5", "1-0", "a-b", "-", "", " 1 - 2 ", "0-1-2", "18446744073709551615-18446744073709551616", "-18446744073709551615", "+1-+2"]).encode()
-        if kind == "crv": return rnd.choice(["bytes 0-1/2", "BYTES 0-9/9", "bytes 0-0/0", "Bytes 5-7/100", "bytes 0-9223372036854775807/9223372036854775807", "bytes -5--1/0", "bytes 5-1/3", "bytes a-1/2", "bytes 0-1", "bytes 0/1", "items 0-1/2", " bytes  0-1/2 ", "bytes -1--1/-1", "bytes 9223372036854775807-9223372036854775807/9223372036854775808", "bytes"]).encode()
+        if kind == "rgspec": return rnd.choice(["0-1", "5-", "-5", "1-0", "a-b", "-", "", " 1 - 2 ", "0-1-2", "18446744073709551615-18446744073709551616", "-18446744073709551615", "+1-+2", "%s-%s" % (rnd.choice(EXTREME), rnd.choice(EXTREME))]).encode()
+        if kind == "crv": return rnd.choice(["bytes 0-1/2", "BYTES 0-9/9", "bytes 0-0/0", "Bytes 5-7/100", "bytes 0-9223372036854775807/9223372036854775807", "bytes -5--1/0", "bytes 5-1/3", "bytes a-1/2", "bytes 0-1", "bytes 0/1", "items 0-1/2", " bytes  0-1/2 ", "bytes -1--1/-1", "bytes 9223372036854775807-9223372036854775807/9223372036854775808", "bytes", "bytes 0--0/0", "bytes %s-%s/%s" % (rnd.choice(EXTREME), rnd.choice(EXTREME), rnd.choice(EXTREME))]).encode()
         if kind == "b64d":
             raw = bytes(rnd.randrange(256) for _ in range(rnd.choice([0, 1, 2, 3, 4, 5, 30, 200])))
             return base64.b64encode(raw)
